@@ -835,13 +835,14 @@ theorem enabled_actor (s : Sys) (st : Step) (hi : SInv s) (he : st.enabled s = t
 
 /-! ### shared lookup -/
 
-theorem shareAll_spec (leader : Msg) (ids : List Nat) : ∀ next, leader.addr < next →
-    (shareAll leader ids next).map (·.id) = ids ∧
+theorem shareAll_spec (leader : Msg) (ids : List (Nat × Bool)) : ∀ next, leader.addr < next →
+    (shareAll leader ids next).map (·.id) = ids.map (·.1) ∧
     (∀ m ∈ shareAll leader ids next, next ≤ m.addr ∧ m.body = leader.body) ∧
     ((shareAll leader ids next).map (·.addr)).Nodup := by
   induction ids with
   | nil => intro next _; simp [shareAll]
-  | cons id t ih =>
+  | cons ido t ih =>
+    obtain ⟨id, owned⟩ := ido
     intro next hlt
     obtain ⟨I1, I2, I3⟩ := ih (next + 1) (by omega)
     simp only [shareAll, groupLookupResult, if_true, List.map_cons, List.nodup_cons, List.mem_cons, List.mem_map]
@@ -853,5 +854,38 @@ theorem shareAll_spec (leader : Msg) (ids : List Nat) : ∀ next, leader.addr < 
     · rintro ⟨m, hm, hma⟩
       have := (I2 m hm).1
       omega
+
+/-! ### DNS-over-QUIC -/
+
+theorem doq_run_spec (evs : List DoqEvent) : ∀ c : DoqConn, c.writers = c.streams →
+    (c.run evs).out = c.out ++ specDoq c.streams evs ∧ (c.run evs).writers = (c.run evs).streams := by
+  induction evs with
+  | nil => intro c hc; simp [DoqConn.run, specDoq, hc]
+  | cons ev t ih =>
+    intro c hc
+    cases ev with
+    | accept sid =>
+      have := ih (c.step (.accept sid)) (by simp [DoqConn.step, hc])
+      simpa [DoqConn.run, DoqConn.step, specDoq] using this
+    | complete i reply =>
+      cases reply with
+      | none =>
+        have := ih (c.step (.complete i none)) (by simpa [DoqConn.step] using hc)
+        simpa [DoqConn.run, DoqConn.step, specDoq] using this
+      | some b =>
+        cases hw : c.writers[i]? with
+        | none =>
+          have h1 : c.step (.complete i (some b)) = c := by simp [DoqConn.step, hw]
+          have := ih c hc
+          have hs : c.streams[i]? = none := by rw [← hc]; exact hw
+          simp only [DoqConn.run, List.foldl_cons, h1, specDoq, hs, List.nil_append]
+          exact this
+        | some s =>
+          have h1 : c.step (.complete i (some b)) = { c with out := c.out ++ [(s, doqFrame b)] } := by
+            simp [DoqConn.step, hw]
+          have := ih { c with out := c.out ++ [(s, doqFrame b)] } hc
+          have hs : c.streams[i]? = some s := by rw [← hc]; exact hw
+          simp only [DoqConn.run, List.foldl_cons, h1, specDoq, hs]
+          simpa [DoqConn.run, List.append_assoc] using this
 
 end SdnsVerif.Lemmas.Slab
